@@ -50,6 +50,11 @@ class StepFunc(abc.ABC):
         assert active_set.shape == lb.shape
         assert (lb <= ub).all()
 
+        # project onto the bounds as represented in the working precision,
+        # bounds of higher precision could not be attained by the projection
+        lb = lb.astype(x.dtype, copy=False)
+        ub = ub.astype(x.dtype, copy=False)
+
         p = np.copy(x)
 
         p[active_set] = np.clip(x[active_set], lb[active_set], ub[active_set])
